@@ -402,7 +402,7 @@ def jobs_for(prop, tier):
     if prop == 'C05':
         return jobs_c05(tier) + [j for j in jobs_option_below(tier) if j[1][3] in ('num', 'localindex')] + jobs_flatten(tier)
     if prop == 'C09':
-        return jobs_c09(tier) + [j for j in jobs_option_below(tier) if j[1][3] in ('rpad', 'rpad_and_clip')] + jobs_simplify(tier)
+        return jobs_c09(tier) + [j for j in jobs_option_below(tier) if j[1][3] in ('rpad', 'rpad_and_clip')] + jobs_simplify(tier) + jobs_fillna(tier)
     if prop == 'C11':
         return jobs_simplify(tier)
     if prop == 'C07':
@@ -2475,3 +2475,71 @@ def jobs_option_getitem(tier):
                 js.append((h_option_getitem, ('IndexedArray64', p, None, hk), 600))
                 js.append((h_option_getitem, ('UnmaskedArray', p, None, hk), 600))
     return js
+
+
+# ------------------------------------------------------------------------------------------------ C09: fillna on an option node
+@guard
+def h_fillna(pattern, mergeable):
+    """IndexedOptionArray64::fillna(value): exactly the missing entries are replaced by the (single) fill value, every valid entry keeps its own
+    element, order and length unchanged - whether or not the value's type merges into the content"""
+    pattern = tuple(map(bool, pattern))
+    n = len(pattern)
+    nc = NodeCtx(['IA', 'UNI', 'IDX', 'CNT', 'UTL', 'KD', 'IDS', 'EA'], [], unwind=max(14, 4 * n + 12))
+    BASE = 1 << 32
+    kk = z3.BitVec('k!', 64)
+    vptr = nc.new_content_in(nc.m.mem, 'fillvalue', BV(1), z3.Lambda([kk], kk + BASE), const=True)
+
+    def s_mergeable(eng, fr, ins, st, name, argv):
+        return z3.BitVecVal(1 if mergeable else 0, 1)
+    nc.m.eng.stubs['vf$slot%d' % nc.slot('9mergeableERKSt10shared_ptr')] = s_mergeable
+
+    def s_content_mergemany(eng, fr, ins, st, name, argv):
+        sret, selfp, vec = argv
+        first, finfo = nc.content_info(selfp, st, eng)
+        o = st.mem.o[vec.obj]
+        b, e = o.cells[vec.off][0], o.cells[vec.off + 8][0]
+        qb = [q for g, q in nodeh.ptr_cases(b) if q.obj is not None][0]
+        qe = [q for g, q in nodeh.ptr_cases(e) if q.obj is not None][0]
+        buf = st.mem.o[qb.obj]
+        parts = [finfo] + [nc.content_info(buf.cells[qb.off + 16 * i][0], st, eng)[1] for i in range((qe.off - qb.off) // 16)]
+        total, body, cum = BV(0), BV(-7), []
+        for info in parts:
+            cum.append(total); total = total + info['length']
+        for info, c0 in zip(parts, cum):
+            body = z3.If(kk >= c0, z3.Select(info['atoms'], kk - c0), body)
+        nc._ret(st, sret, nc.fresh_content(eng, st, z3.simplify(total), z3.Lambda([kk], body), derived='merged'))
+        return None
+    nc.m.eng.stubs['vf$slot%d' % nc.slot('9mergemanyERKSt6vector')] = s_content_mergemany
+    this, idx = build_option64(nc, pattern)
+    vref = nc.m.record('valueref', {0: (vptr, 8), 8: (NULL, 8)}, const=True)
+    nc.m.record('ret', {})
+    cands = [f for mod_ in nc.m.eng.mods for f in mod_.func_src if f.startswith('_ZNK7awkward14IndexedArrayOfIlLb1EE6fillnaE')]
+    out = nc.m.call(cands[0], [Ptr('ret', 0), this, vref])
+    obls = [('fillna does not raise', out.raised)]
+    want = [Elem(BV(BASE)) if miss else Elem(idx[i]) for i, miss in enumerate(pattern)]
+    rcell = nc.m.cell('ret', 0)
+    for g, res in (nodeh.decode_cases(nc, out.mem, rcell) if rcell is not None else []):
+        if res is None:
+            obls.append(('a result is returned', z3.And(g, z3.Not(out.raised))))
+        else:
+            obls += [(nm, z3.And(g, z3.Not(out.raised), c)) for nm, c in compare(value(res), want)]
+
+    def replay(model, ent):
+        iv = [model.eval(x, model_completion=True).as_signed_long() for x in idx]
+        lc = max([model.eval(nc.lencontent, model_completion=True).as_signed_long(), 1] + [v + 1 for v in iv])
+        if lc > 60:
+            return False, 'content too long to replay', {}
+        if mergeable:
+            prog = 'i64 %s option64 %s i64 1 999 fillna' % (fullnative.ints(range(lc)), fullnative.ints(iv))
+            exp = [999 if v < 0 else v for v in iv]
+        else:
+            prog = 'i64 %s option64 %s i64 2 998 999 regular 2 1 fillna' % (fullnative.ints(range(lc)), fullnative.ints(iv))
+            exp = [[998, 999] if v < 0 else v for v in iv]
+        return akrun_check(prog, exp, 'IndexedOptionArray64(index=%s).fillna(%s)' % (iv, '999' if mergeable else '[998, 999]'))
+    return mdischarge(nc.m, 'IndexedOptionArray64::fillna pattern=%s %s' % (''.join('N' if p else 'v' for p in pattern), 'mergeable value' if mergeable else 'value of another type'), obls, [],
+                      replay=replay, prefer=[nc.lencontent <= 8], extra=dict(bounds='%d entries, missing pattern concrete (case split), index values symbolic' % n))
+
+
+def jobs_fillna(tier):
+    pats = [(0, 1, 0), (1, 1), (0, 0)] if tier == 'quick' else [p for k in (1, 2, 3, 4) for p in itertools.product((0, 1), repeat=k)]
+    return [(h_fillna, (p, mg), 600) for p in pats for mg in (True, False)]
